@@ -132,6 +132,21 @@ def scenarios():
     add("E-unexported-field-in-library-struct-provider", "E", inje("e2", "lib.SetStructField", "lib.U"), "./e2/app", None, ["C01", "C19", "C12"], reject=rx)
     add("E-unexported-struct-type-in-library-set", "E", inje("e3", "lib.SetStructType", "lib.W"), "./e3/app", None, ["C01", "C19", "C12"], reject=rx)
     add("E-unexported-field-selected-from-the-injector-package", "E", inje("e4", 'wire.FieldsOf(new(lib.U), "t")', "lib.T", "u lib.U"), "./e4/app", None, ["C01", "C19", "C12"], reject=rx)
+    # ---------------- graph G: a library set listing providers and values of its own internal package
+    def libg(g):
+        return {"%s/lib/internal/impl/impl.go" % g: "package impl\n\ntype Store struct{ N int }\n\nvar Default = 40\n\nfunc NewStore(n int) *Store { return &Store{N: n + 2} }\n",
+                "%s/lib/lib.go" % g: ("package lib\n\nimport (\n\t\"example.com/l/%s/lib/internal/impl\"\n\t\"%s\"\n)\n\ntype Store = impl.Store\n\n"
+                                     "var Set = wire.NewSet(wire.Value(impl.Default), impl.NewStore)\n\nvar StructSet = wire.NewSet(wire.Value(1), wire.Struct(new(impl.Store), \"N\"))\n") % (g, W)}
+    gin = libg("g1")
+    gin.update({"g1/lib/cmd/main.go": "package main\n\nimport \"fmt\"\n\nfunc main() { fmt.Println(\"store\", initStore().N) }\n",
+                "g1/lib/cmd/wire.go": INJ + "package main\n\nimport (\n\t\"example.com/l/g1/lib\"\n\t\"%s\"\n)\n\nfunc initStore() *lib.Store {\n\tpanic(wire.Build(lib.Set))\n}\n" % W})
+    add("G-internal-providers-used-inside-the-tree", "G", gin, "./g1/lib/cmd", "store 42", ["C01", "C13", "C10"])
+    rxi = r"wire\.go:\d+:\d+: inject initX: (provider for|value) \S+ can't be used: .*internal"
+    for g, expr in (("g2", "lib.Set"), ("g3", "lib.StructSet")):
+        gout = libg(g)
+        gout.update({"%s/app/app.go" % g: "package main\n\nfunc main() {}\n",
+                     "%s/app/wire.go" % g: INJ + "package main\n\nimport (\n\t\"example.com/l/%s/lib\"\n\t\"%s\"\n)\n\nfunc initX() *lib.Store {\n\tpanic(wire.Build(%s))\n}\n" % (g, W, expr)})
+        add("E-internal-package-of-the-library-%s" % g, "E", gout, "./%s/app" % g, None, ["C01", "C13", "C19"], reject=rxi)
     return S
 
 
@@ -166,7 +181,7 @@ def eng_layouts(pid, tier, wd, known, replay=None):
                 b = sh(["go", "build", s["main"]], cwd=root, env=GOENV, timeout=300)
                 why.append("the injector's package cannot name this provider, yet wire generated code" + ("; it does not compile: " + b.stderr[-300:] if b.returncode != 0 else ""))
             elif not re.search(s["reject"], err):
-                why.append("refused, but without the positioned diagnostic about the unexported identifier: " + err[:400])
+                why.append("refused, but without the positioned diagnostic about what the injector's package cannot name: " + err[:400])
             if pid == "C19":
                 c = sh([tools["wire"], "check", "./%s/..." % top], cwd=root, env=GOENV, timeout=120)
                 if (c.returncode == 0) != (rc == 0):
